@@ -281,3 +281,60 @@ class TypeUseSites(Harness):
 
 
 HARNESSES = [TypeForests(), TypeUseSites()]
+
+# ---- deductive: parse_constants implements the typed-list reading of the token list --------------------------------------------------
+# Specification (a left-to-right fold over the first i tokens, independent of the parser's data structures):
+#   tl_mark(t, i)      the i-th token (if any) is read as a type name, i.e. token i-1 was the dash that announces it
+#   tl_pend(t, s, i)   name s is waiting for its type after i tokens
+#   tl_has(t, s, i)    name s has received a type within the first i tokens;  tl_type(t, s, i) is that type's name (the latest one)
+# A finished list gives s the type tl_type if it was typed and 'object' if it is still pending (trailing untyped names).
+import z3 as _z3
+from pyvc.core import Val as _Val
+from pyvc.sorts import I as _I, S as _S, B as _B
+_SQ = _z3.SeqSort(_S)
+tl_mark = _z3.RecFunction("tl_mark", _SQ, _I, _B)
+tl_pend = _z3.RecFunction("tl_pend", _SQ, _S, _I, _B)
+tl_has = _z3.RecFunction("tl_has", _SQ, _S, _I, _B)
+tl_type = _z3.RecFunction("tl_type", _SQ, _S, _I, _S)
+_t, _s, _i = _z3.Const("tl_t", _SQ), _z3.Const("tl_s", _S), _z3.Int("tl_i")
+_DASH = _z3.StringVal("-")
+_z3.RecAddDefinition(tl_mark, [_t, _i], _z3.If(_i <= 0, False, _z3.If(tl_mark(_t, _i - 1), False, _t[_i - 1] == _DASH)))
+_z3.RecAddDefinition(tl_pend, [_t, _s, _i], _z3.If(_i <= 0, False, _z3.If(tl_mark(_t, _i - 1), False,
+                     _z3.If(_t[_i - 1] == _DASH, tl_pend(_t, _s, _i - 1), _z3.Or(tl_pend(_t, _s, _i - 1), _t[_i - 1] == _s)))))
+_z3.RecAddDefinition(tl_has, [_t, _s, _i], _z3.If(_i <= 0, False, _z3.If(tl_mark(_t, _i - 1), _z3.Or(tl_has(_t, _s, _i - 1), tl_pend(_t, _s, _i - 1)),
+                                                                         tl_has(_t, _s, _i - 1))))
+_z3.RecAddDefinition(tl_type, [_t, _s, _i], _z3.If(_i <= 0, _z3.StringVal(""), _z3.If(_z3.And(tl_mark(_t, _i - 1), tl_pend(_t, _s, _i - 1)), _t[_i - 1],
+                                                                                  tl_type(_t, _s, _i - 1))))
+TL_HOOKS = {
+    "tl_mark": lambda interp, st, a: _Val(tl_mark(a[0].t, a[1].t), "bool"),
+    "tl_pend": lambda interp, st, a: _Val(tl_pend(a[0].t, a[1].t, a[2].t), "bool"),
+    "tl_has": lambda interp, st, a: _Val(tl_has(a[0].t, a[1].t, a[2].t), "bool"),
+    "tl_type": lambda interp, st, a: _Val(tl_type(a[0].t, a[1].t, a[2].t), "str"),
+}
+_N = "len(constants_ast)"
+_BADTYPE = f"exists_int(lambda j: tl_mark(constants_ast, j) and constants_ast[j] not in domain_types, 0, {_N})"
+CONTRACTS["lisp_parsers.domain_parser:DomainParser.parse_constants"] = dict(
+    prop="C06", shards=6,
+    params={"self": ("ref", "DomainParser"), "constants_ast": ("seq", "str"), "domain_types": ("ref", "dict_PDDLType")},
+    locals={"constants": ("ref", "dict_PDDLObject"), "same_type_constants": ("seq", "str")},
+    returns=("ref", "dict_PDDLObject"), dictcomp_duplicates=True,
+    requires=["allocated(self)", "allocated(domain_types)"],
+    ensures=[
+        "fresh(result)",
+        # exactly the declared names ...
+        f"forall_str(lambda s: (s in result) == (tl_has(constants_ast, s, {_N}) or tl_pend(constants_ast, s, {_N})))",
+        # ... each a new constant object carrying its name and the type object registered under the declared type name
+        f"forall_str(lambda s: implies(s in result, fresh(result[s]) and result[s].name == s and result[s].type == "
+        f"domain_types[('object' if tl_pend(constants_ast, s, {_N}) else tl_type(constants_ast, s, {_N}))]))"],
+    raises={"SyntaxError": _BADTYPE, "KeyError": "'object' not in domain_types"},
+    must_raise=[_BADTYPE],
+    modifies=[],
+    loops={0: dict(invariants=[
+        "fresh(constants)",
+        "type_marker_reached == tl_mark(constants_ast, _i)",
+        "forall_str(lambda s: (s in same_type_constants) == tl_pend(constants_ast, s, _i))",
+        "forall_str(lambda s: (s in constants) == tl_has(constants_ast, s, _i))",
+        "forall_str(lambda s: implies(s in constants, fresh(constants[s]) and constants[s].name == s and constants[s].type == domain_types[tl_type(constants_ast, s, _i)]))",
+        "forall_int(lambda j: implies(tl_mark(constants_ast, j), constants_ast[j] in domain_types), 0, _i)"],
+        modifies=["dict_PDDLObject.keys[constants]", "dict_PDDLObject.map[constants]", "PDDLObject.name", "PDDLObject.type"])},
+    spec_hooks=TL_HOOKS)
